@@ -312,13 +312,13 @@ Qed.
 Lemma span_digits_le s : forall d r, span_digits s = (d, r) -> (length r <= length s)%nat.
 Proof.
   induction s as [|c t IH]; intros d r; cbn [span_digits]; [intros H; injection H as _ <-; lia|].
-  destruct (is_digit c); [|intros H; injection H as _ <-; lia].
+  destruct (is_dec_digit c); [|intros H; injection H as _ <-; lia].
   destruct (span_digits t) as [d0 r0]. intros H. injection H as _ <-. specialize (IH d0 r0 eq_refl). cbn [length]. lia.
 Qed.
 
 Lemma parse_int_le s n r : parse_int s = Some (n, r) -> (length r <= length s)%nat.
 Proof.
-  unfold parse_int. destruct s as [|c t]; [discriminate|]. destruct (negb (is_digit c)); [discriminate|].
+  unfold parse_int. destruct s as [|c t]; [discriminate|]. destruct (negb (is_dec_digit c)); [discriminate|].
   destruct ((c =? 48) && _)%bool; [discriminate|].
   destruct (span_digits (c :: t)) as [ds rest] eqn:E. intros H. injection H as _ <-. exact (span_digits_le _ _ _ E).
 Qed.
